@@ -31,11 +31,44 @@ def krylov_dimension(Afunc, v, limit):
     return limit
 
 
+def reference_lanczos(Afunc, vstart, numiter):
+    """The plain Lanczos recurrence with the absolute breakdown test `beta < 100 n eps`, i.e. the algorithm known finding F5 is about,
+    written out independently. A failure is attributed to F5 only if the library's iteration still IS this algorithm (same number of
+    returned vectors, same coefficients and vectors up to the exhaustion point); a change that alters the iteration itself (dtype of
+    the basis, another breakdown rule, padded outputs, ...) produces different output and gets no attribution."""
+    v = np.asarray(vstart)
+    nrm = np.linalg.norm(v)
+    if not nrm > 0:
+        return None
+    v = v / nrm
+    n = len(v)
+    alpha = np.zeros(numiter); beta = np.zeros(max(numiter - 1, 0))
+    V = np.zeros((numiter, n), dtype=complex)
+    V[0] = v
+    for j in range(numiter - 1):
+        w = np.array(Afunc(V[j].copy()), dtype=complex)
+        alpha[j] = np.vdot(w, V[j]).real
+        w = w - (alpha[j] * V[j] + (beta[j - 1] * V[j - 1] if j > 0 else 0))
+        beta[j] = np.linalg.norm(w)
+        if beta[j] < 100 * n * np.finfo(float).eps:
+            return alpha[:j + 1], beta[:j], V[:j + 1].T
+        V[j + 1] = w / beta[j]
+    w = np.array(Afunc(V[numiter - 1].copy()), dtype=complex)
+    alpha[numiter - 1] = np.vdot(w, V[numiter - 1]).real
+    return alpha, beta, V.T
+
+
 class LanczosMonitor:
     def __init__(self):
         self.calls = 0
-        self.past_breakdown = 0
+        self.signature = 0
+        self.deviates = 0
         self.details = []
+
+    @property
+    def past_breakdown(self):
+        """Number of calls that showed the signature of F5 - zero as soon as any call of the run deviated from the reference algorithm."""
+        return 0 if self.deviates else self.signature
 
     def __enter__(self):
         self._orig = _K.lanczos_iteration
@@ -51,9 +84,23 @@ class LanczosMonitor:
                 V = np.asarray(out[2])
                 orth = float(np.max(np.abs(V.conj().T @ V - np.identity(V.shape[1])))) if V.ndim == 2 and V.shape[1] == returned else 0.0
                 if returned > k or orth > 1e-9:
-                    self.past_breakdown += 1
+                    self.signature += 1
                     if len(self.details) < 3:
                         self.details.append({'n': int(len(vstart)), 'numiter': int(numiter), 'returned': int(returned), 'krylov_dim': int(k), 'orth_err': orth})
+            # is the library's iteration still the algorithm the finding is about?
+            try:
+                ref = reference_lanczos(Afunc, np.array(vstart, copy=True), numiter)
+            except Exception:
+                ref = None
+            same = ref is not None and len(ref[0]) == returned and len(out[1]) == len(ref[1]) and np.asarray(out[2]).shape == ref[2].shape
+            if same and returned >= 1:
+                r = max(1, min(returned, krylov_dimension(Afunc, np.array(vstart, copy=True), returned) if returned >= 2 else 1))
+                sc = max(1.0, float(np.max(np.abs(ref[0][:r]))), float(np.max(np.abs(ref[1][:max(r - 1, 0)]))) if r >= 2 else 0.0)
+                same = (np.allclose(np.asarray(out[0])[:r], ref[0][:r], rtol=1e-6, atol=1e-8 * sc)
+                        and np.allclose(np.asarray(out[1])[:max(r - 1, 0)], ref[1][:max(r - 1, 0)], rtol=1e-6, atol=1e-8 * sc)
+                        and np.allclose(np.asarray(out[2])[:, :r], ref[2][:, :r], rtol=1e-6, atol=1e-7))
+            if not same:
+                self.deviates += 1
             return out
         _K.lanczos_iteration = wrapped
         return self
